@@ -71,7 +71,7 @@ func c01Gen(tier string, seed int64) []ev.Case {
 	}
 	nRandom := 2000
 	if tier == "thorough" {
-		nRandom = 100000
+		nRandom = 1500000
 	}
 	for i := 0; i < nRandom; i += 250 {
 		cs = append(cs, ev.MkCase("batch", c01Batch{Kind: "random", Seed: seed + int64(i), Count: 250}))
@@ -79,7 +79,7 @@ func c01Gen(tier string, seed int64) []ev.Case {
 	cs = append(cs, ev.MkCase("batch", c01Batch{Kind: "none", Seed: seed, Count: 60}))
 	nUDP := 48
 	if tier == "thorough" {
-		nUDP = 2000
+		nUDP = 6000
 	}
 	for i := 0; i < nUDP; i += 16 {
 		cs = append(cs, ev.MkCase("batch", c01Batch{Kind: "random", Seed: seed*31 + int64(i), Count: 16, UDP: true}))
